@@ -15,7 +15,14 @@ import secsgem.gem
 import secsgem.secs.variables as V
 
 SV = {10: ("sv-ten", "mm", 42), "SV2": ("sv-text", "u", 7)}
-EC = {20: ("ec-u4", 0, 500, 10, V.U4), 21: ("ec-f4", 0.0, 10.0, 2.5, V.F4), "EC3": ("ec-i4", -5, 5, 1, V.I4)}
+# constants 22 and 23 declare only one limit (None = no limit on that side)
+EC = {20: ("ec-u4", 0, 500, 10, V.U4), 21: ("ec-f4", 0.0, 10.0, 2.5, V.F4), "EC3": ("ec-i4", -5, 5, 1, V.I4),
+      22: ("ec-min-only", 0, None, 7, V.I4), 23: ("ec-max-only", None, 100, 50, V.I4)}
+
+
+def within(e, v):
+    lo, hi = EC[e][1], EC[e][2]
+    return (lo is None or lo <= v) and (hi is None or v <= hi)
 AL = {100: ("al-a", "text a", 2), 101: ("al-b", "text b", 5)}
 
 
@@ -166,12 +173,14 @@ def bnd_variables(tier, seed):
             return ("F8", [v])
         return ("I4", [v]) if v < 0 else ("U4", [v])
 
-    cands = {20: [0, 500, 250, 501, -1, 1000000], 21: [0.0, 10.0, 5.5, 10.5, -0.5, math.nan], "EC3": [-5, 5, 0, 6, -6]}
+    cands = {20: [0, 500, 250, 501, -1, 1000000], 21: [0.0, 10.0, 5.5, 10.5, -0.5, math.nan], "EC3": [-5, 5, 0, 6, -6],
+             22: [0, -1, -5, 1000000], 23: [100, 101, -1000000, 5]}
     updates = []
     for ecid, vs in cands.items():
         for v in vs:
             updates.append([(ecid, v)])
-    for (e1, v1), (e2, v2) in itertools.product([(20, 100), (20, 501), (21, 9.0), (21, math.nan), ("EC3", 6), (777, 1)], [(20, 300), ("EC3", -5), (21, 11.0), (888, 2), ("EC3", 2)]):
+    for (e1, v1), (e2, v2) in itertools.product([(20, 100), (20, 501), (21, 9.0), (21, math.nan), ("EC3", 6), (777, 1), (22, -1), (23, 101)],
+                                                [(20, 300), ("EC3", -5), (21, 11.0), (888, 2), ("EC3", 2), (22, 3), (23, 101)]):
         if e1 != e2:
             updates.append([(e1, v1), (e2, v2)])
     for upd in updates:
@@ -191,12 +200,12 @@ def bnd_variables(tier, seed):
             after = {k: h.equipment_constants[k].value for k in EC}
 
             def in_range(e, v):
-                return e in EC and not (isinstance(v, float) and math.isnan(v)) and EC[e][1] <= v <= EC[e][2]
+                return e in EC and not (isinstance(v, float) and math.isnan(v)) and within(e, v)
             all_ok = all(in_range(e, v) for e, v in upd)
             for k in EC:
                 lo, hi = EC[k][1], EC[k][2]
                 val = after[k]
-                if isinstance(val, float) and math.isnan(val) or not (lo <= val <= hi):
+                if isinstance(val, float) and math.isnan(val) or not within(k, val):
                     fails.add("s2f15.never-out-of-bounds", dict(w, constant=k, value=repr(val), bounds=[lo, hi], eac=eac), "after S2F15 a constant lies outside its declared min/max")
             if eac != 0 and any(not R.same(after[k], before[k]) for k in EC):
                 fails.add("s2f15.refused-applies-nothing", dict(w, eac=eac, before=repr(before), after=repr(after)), "S2F15 was refused (EAC != 0) but a constant changed")
